@@ -838,10 +838,17 @@ where
 	let key_id = block_fees.key_id();
 	let parent_key_id = wallet.parent_key_id();
 
+	// A mining node may re-request a coinbase for the key of the candidate it replaces,
+	// but only a still unconfirmed coinbase candidate may be overwritten: any other record
+	// under that key (a confirmed, reserved or pending output) must be left alone
 	let key_id = match key_id {
-		Some(key_id) => match keys::retrieve_existing_key(wallet, key_id, None) {
-			Ok(k) => k.0,
-			Err(_) => keys::next_available_key(wallet, keychain_mask)?,
+		Some(key_id) => match wallet.get(&key_id, &None) {
+			Ok(ref existing)
+				if existing.is_coinbase && existing.status == OutputStatus::Unconfirmed =>
+			{
+				existing.key_id.clone()
+			}
+			_ => keys::next_available_key(wallet, keychain_mask)?,
 		},
 		None => keys::next_available_key(wallet, keychain_mask)?,
 	};
